@@ -83,6 +83,29 @@ for node in ast.walk(htree):
 if not cols:
     die("insert_scan_result: INSERT column list")
 
+# the write queue: `self._execute_queue = asyncio.Queue(...)` in DBHandler.connect (its capacity decides whether the
+# `put` in insert_scan_result - which runs in the `finally` of ECU._request - can suspend) and the awaits of
+# insert_scan_result (every await there is a point where a cancellation can overtake the row)
+queue_maxsize = None
+insert_awaits = None
+for node in ast.walk(htree):
+    if isinstance(node, ast.Assign) and ast.unparse(node.targets[0]) == "self._execute_queue" and isinstance(node.value, ast.Call) \
+            and ast.unparse(node.value.func) in ("asyncio.Queue", "Queue"):
+        args = list(node.value.args) + [k.value for k in node.value.keywords if k.arg == "maxsize"]
+        if not args:
+            queue_maxsize = 0
+        elif len(args) == 1 and isinstance(args[0], ast.Constant) and isinstance(args[0].value, int):
+            queue_maxsize = max(0, args[0].value)
+        else:
+            die("DBHandler.connect: asyncio.Queue(...) with a capacity the translator cannot evaluate")
+    if isinstance(node, ast.AsyncFunctionDef) and node.name == "insert_scan_result":
+        insert_awaits = [ast.unparse(n.value.func) if isinstance(n.value, ast.Call) else ast.unparse(n.value)
+                         for n in ast.walk(node) if isinstance(n, ast.Await)]
+if queue_maxsize is None:
+    die("DBHandler.connect: self._execute_queue = asyncio.Queue(...)")
+if insert_awaits is None:
+    die("insert_scan_result")
+
 # --- attribute shapes ------------------------------------------------------------------------------------------------
 SH = {"i": ".int", "b": ".bool", "n": ".null", "s": ".str", "f": ".float", "y": ".bytes", "E": ".enum"}
 
@@ -136,6 +159,10 @@ def subFunctionMax : Nat := {sub_function_max()}
 
 def logModes : List String := [{", ".join(lean_str(m.name) for m in LogMode)}]
 def insertColumns : List String := [{", ".join(lean_str(c) for c in cols)}]
+
+/-- capacity of `DBHandler._execute_queue` (0 = unbounded) and the calls awaited inside `insert_scan_result` (AST) -/
+def queueMaxsize : Nat := {queue_maxsize}
+def insertAwaits : List String := [{", ".join(lean_str(a) for a in insert_awaits)}]
 
 /-- anchors of `ECU._request` (AST of the working tree) -/
 def logInFinally : Bool := true
